@@ -1,6 +1,7 @@
 SPECIFICATION GenSpec
-CONSTANTS NH = 2 Gran = 4 Hdr = 64 PChunk = 64 MaxLen = 2 MaxArg = 2 Prune = TRUE MaxDepth = 7
+CONSTANTS NH = 2 Gran = 4 Hdr = 64 PChunk = 64 MaxLen = 2 MaxArg = 2 Prune = TRUE Api = "c" MaxDepth = 7
 CONSTRAINT Bound
 VIEW Skel
+INVARIANTS TypeOK AliasOK Refines NoTouch
 ACTION_CONSTRAINT Emit
 CHECK_DEADLOCK FALSE
